@@ -79,11 +79,25 @@ pub fn event_key(e: &Event) -> Option<String> {
 pub fn make_copies(sim: &mut Sim, rng: &mut Rng, rep: &mut Report) -> Vec<Copy> {
 	let mut out = vec![];
 	let styles = [Style::Reference, Style::TipFirst, Style::ManagerFirst, Style::Duplicated, Style::SkippingTips, Style::FilteredBlocks, Style::ShallowReorgs, Style::ShallowReorgsConfirm];
-	for n in 0..sim.w.nodes.len() {
-		sim.w.complete_all(n);
-		sim.w.process_events(n);
+	// nothing the originals still have queued (events, forwards to process) may be left for later: a copy
+	// would work it off while it is being set up, where its events are not recorded
+	for _ in 0..4 {
+		let mut did = 0;
+		for n in 0..sim.w.nodes.len() {
+			did += sim.w.complete_all(n);
+			did += sim.w.process_events(n);
+			if sim.w.nodes[n].mgr.needs_pending_htlc_processing() {
+				sim.w.process_forwards(n);
+				did += 1;
+			}
+		}
+		if did == 0 {
+			break;
+		}
 	}
 	sim.dispatch(rep);
+	// (what the originals concluded up to here is not part of the comparison: the copies start now)
+	sim.w.event_log.clear();
 	for n in 0..sim.w.nodes.len() {
 		let node = &sim.w.nodes[n];
 		let mgr_bytes = node.mgr.encode();
